@@ -344,6 +344,21 @@ func runKmsCase(c *kmsCase, r *gen.Rand) {
 			c.Attempts = append(c.Attempts, id)
 		}
 	}
+	// the property itself: unwrapping succeeds exactly when a configured region that has an entry can decrypt
+	able := false
+	for _, i := range c.DOrder {
+		for _, e := range c.Entries {
+			if e == i && c.Dec[i] {
+				able = true
+			}
+		}
+	}
+	if able && !c.UnwrapOK {
+		viol("unwrap failed although a configured region with an envelope entry can decrypt")
+	}
+	if !able && c.UnwrapOK {
+		viol("unwrap succeeded although no configured region with an entry can decrypt")
+	}
 	for _, rg := range regs {
 		for _, b := range rg.retained {
 			if !allZero(b) {
